@@ -208,7 +208,7 @@ func checkC01(t *testing.T, env *report.Env, rep *report.Report) {
 	fs := &failSet{}
 	sets := ruleUniverse(env.Thorough())
 	sec := rep.Add(&report.Section{Name: fmt.Sprintf("acl-all-rule-sets-depth%d", depth), Engine: "seqx", Exhaustive: true, Extra: map[string]int64{},
-		Rule:  "every database state of the BFS (names a, ab) × every rule set of the universe × 18 operation instances (incl. a put of the bytes the secret already holds) × targets {a, ab, zz, _internal/x, _internal/a, space-a, ab/../a, a/}; an allowed call changes only the name it was given and a name the database does not hold is not found however it is spelled, at the db.DB API and through the HTTP handlers; reference decision = independent glob/ACL evaluator; non-trivial = evaluations that the reference allows (the call must then behave exactly like the superuser's)",
+		Rule:  "every database state of the BFS (names a, ab) × every rule set of the universe × 18 operation instances (incl. a put of the bytes the secret already holds) × targets {a, ab, zz, _internal/x, _internal/a, space-a, ab/../a, a/}; an allowed call changes only the name it was given and a name the database does not hold is not found however it is spelled, at the db.DB API and through the HTTP handlers; after each rule set with a multi-pattern or multi-action rule, list is asked again on the same live database by a caller whose different rule set prints the same; reference decision = independent glob/ACL evaluator; non-trivial = evaluations that the reference allows (the call must then behave exactly like the superuser's)",
 		Bound: fmt.Sprintf("depth %d; %d rule sets", depth, len(sets))})
 	states, trans := BFS(alpha, depth, 16, nil, fs.add)
 	sec.States, sec.Transitions = int64(len(states)), trans
@@ -343,6 +343,23 @@ func checkC01(t *testing.T, env *report.Env, rep *report.Report) {
 						}
 					}
 				}
+				// a different rule set that prints the same (patterns or actions joined by a space) is a
+				// different rule set: list on the same live database right after the first caller's list
+				if tw := lookAlike(rs); tw != nil {
+					run(d, caller, call{Kind: "list"}, "a")
+					twRef := toRef(tw)
+					got := run(d, db.Caller{Principal: hx.Super().Principal, Permissions: tw}, call{Kind: "list"}, "a")
+					var want []string
+					for _, in := range s.Model.List() {
+						if model.Allow(twRef, "info", in.Name) {
+							want = append(want, fmt.Sprintf("%s%v@%d", in.Name, vers(in.Versions), in.Active))
+						}
+					}
+					evals++
+					if got.Class != model.OK || got.Text != strings.Join(want, ";") {
+						fs.add("list-filter-look-alike", fmt.Sprintf("state %s: list by a caller with rules %s right after a caller with rules %s: got %v %q want %q", s.Key, rulesString(tw), rulesString(rs), got.Class, got.Text, strings.Join(want, ";")), s.Hist)
+					}
+				}
 				// refusals must be identical for existing and absent names
 				for cs, m := range denials {
 					var first, firstName string
@@ -378,6 +395,38 @@ func checkC01(t *testing.T, env *report.Env, rep *report.Report) {
 	close(ch)
 	wg.Wait()
 	fs.flush(rep, sec.Name, 3)
+}
+
+// lookAlike returns a rule set that differs from rs and whose default formatting is the same: the
+// patterns (and the actions) of every rule joined into one string with spaces. nil if rs has no rule
+// with two patterns or two actions.
+func lookAlike(rs acl.Rules) acl.Rules {
+	var out acl.Rules
+	differs := false
+	for _, r := range rs {
+		n := acl.Rule{Action: r.Action, Secret: r.Secret}
+		if len(r.Secret) > 1 {
+			var ps []string
+			for _, p := range r.Secret {
+				ps = append(ps, string(p))
+			}
+			n.Secret = []acl.Secret{acl.Secret(strings.Join(ps, " "))}
+			differs = true
+		}
+		if len(r.Action) > 1 {
+			var as []string
+			for _, a := range r.Action {
+				as = append(as, string(a))
+			}
+			n.Action = []acl.Action{acl.Action(strings.Join(as, " "))}
+			differs = true
+		}
+		out = append(out, n)
+	}
+	if !differs {
+		return nil
+	}
+	return out
 }
 
 func vers(vs []uint32) []api.SecretVersion {
